@@ -37,6 +37,26 @@ impl Payload for RawC {
     }
 }
 
+/// Two more payload encodings: another one-letter suffix, and a two-letter one that starts like "c".
+macro_rules! raw_suffix {
+    ($name:ident, $sfx:literal) => {
+        #[derive(Clone, Debug, PartialEq, Eq)]
+        pub struct $name(pub Vec<u8>);
+        impl Payload for $name {
+            const SUFFIX: &'static str = $sfx;
+            fn encode(self, mut w: impl WriteBytes) -> Result<(), Box<dyn Error + Send + Sync>> {
+                w.write(&self.0);
+                Ok(())
+            }
+            fn decode(p: &[u8]) -> Result<Self, Box<dyn Error + Send + Sync>> {
+                Ok($name(p.to_vec()))
+            }
+        }
+    };
+}
+raw_suffix!(RawM, "m");
+raw_suffix!(RawCb, "cb");
+
 /// What the spying decoder should do when invoked.
 #[derive(Clone, Copy, PartialEq, Eq, Debug)]
 pub enum DecodeMode {
@@ -120,6 +140,21 @@ impl Footer for SpyFooter {
     fn decode(f: &[u8]) -> Result<Self, Box<dyn Error + Send + Sync>> {
         log(Spy::FooterDecode { bytes: f.to_vec(), ok: true });
         Ok(SpyFooter(f.to_vec()))
+    }
+}
+
+/// A footer type without fields whose wire form is a fixed, non-empty document (a key hint chosen at compile time).
+#[derive(Clone, Debug, PartialEq, Eq)]
+pub struct FixedFooter;
+pub const FIXED_FOOTER: &[u8] = b"{\"kid\":\"primary\"}";
+
+impl Footer for FixedFooter {
+    fn encode(&self, mut w: impl WriteBytes) -> Result<(), Box<dyn Error + Send + Sync>> {
+        w.write(FIXED_FOOTER);
+        Ok(())
+    }
+    fn decode(f: &[u8]) -> Result<Self, Box<dyn Error + Send + Sync>> {
+        if f == FIXED_FOOTER { Ok(FixedFooter) } else { Err("not the fixed footer".into()) }
     }
 }
 
